@@ -1,7 +1,7 @@
 """C08 — withheld traffic reaches the sleeping node exactly once, in order."""
 import re
 
-from . import gwfam
+from . import gwfam, gw
 
 THEOREMS = ["MySensors.C08.wake_burst", "MySensors.C08.mem_pending", "MySensors.C08.buildSets_ok",
             "MySensors.C08.desired_survives_wake", "MySensors.C08.report_clears",
@@ -32,7 +32,7 @@ def version_mix(rng, version, hist):
 
 CFG = {"quick": 300, "thorough": 8000, "versions": ["2.0", "2.1", "2.2"], "lengths": [20, 35, 50],
        "bias": {"wake": 3, "req": 2, "ctl_set": 3, "set": 1.5, "pres_child": 1.5, "idreq": 1.5},
-       "malformed": 0.08, "ota": False, "post": [version_mix]}
+       "malformed": 0.08, "ota": False, "post": [version_mix, gw.pending_pair_burst]}
 
 
 def relevant(hist, obs):
